@@ -108,7 +108,7 @@ public:
 				rec->bad_handle++;
 		}
 		String line;
-		if (client.waitInput(10))
+		if (client.waitInput(60))
 			line = client.readLine();
 		std::string tok(*line, (size_t)line.length());
 		if (delay_us)
@@ -212,7 +212,7 @@ static void client_main(ClientResult* res, bool unix_, int port, std::string pat
 		return;
 	}
 	t0 = vf::now();
-	while (vf::now() - t0 < 30) {
+	while (vf::now() - t0 < 90) {
 		pollfd p = {fd, POLLIN, 0};
 		if (poll(&p, 1, 200) <= 0)
 			continue;
@@ -389,7 +389,7 @@ static void run_history(const Hist& h)
 			usleep(500);
 	}
 	// a running server keeps accepting on every endpoint it is bound to: with no client in flight and an empty backlog, one
-	// probe connection per endpoint must be established, served and closed (30 s bound inside the client, expected: milliseconds)
+	// probe connection per endpoint must be established, served and closed (90 s bound inside the client, expected: milliseconds)
 	ClientResult probe[2];
 	bool probed[2] = {false, false};
 	for (int ep = 0; ep < 2; ep++) {
@@ -587,7 +587,7 @@ static void run_history(const Hist& h)
 				break;
 			}
 			if (!c.eof) {
-				err = vf::str("connection of client ", c.token, " was not closed after serve() returned (no EOF within 30 s)");
+				err = vf::str("connection of client ", c.token, " was not closed after serve() returned (no EOF within 90 s)");
 				break;
 			}
 		}
